@@ -245,6 +245,18 @@ void run(size_t idx) {
 	g.verts = rv3(20.0f);
 	nif.SetVertsForShape(s, g.verts);
 	checkLengths(cs, nif, s, "SetVertsForShape");
+	// single-vertex setter: first, last and a few seeded indices (the triangle count has no say in which vertices exist)
+	{
+		std::vector<size_t> ids{0, nvEff - 1, nvEff / 2};
+		for (int k = 0; k < 3; k++) ids.push_back(rng.below((uint32_t)nvEff));
+		for (auto id : ids) {
+			Vector3 p(rng.range(-30, 30), rng.range(-30, 30), rng.range(-30, 30));
+			nif.MoveVertex(s, p, (int)id);
+			g.verts[id] = p;
+		}
+		nif.MoveVertex(s, Vector3(1, 2, 3), (int)nvEff);   // one past the end: ignored
+		checkLengths(cs, nif, s, "MoveVertex");
+	}
 	g.uvs.resize(nvEff);
 	for (auto& u : g.uvs) u = Vector2(rng.range(-2, 2), rng.range(-2, 2));
 	nif.SetUvsForShape(s, g.uvs);
